@@ -20,8 +20,13 @@ CLAIMED = {
          "(validate before mutate); stateful writers are cross-checked for atom-count and cell-presence checks; synthesised time/step defaults "
          "must depend on the position; counters move after the data; headers once; flush reaches the backend sync on every exit. Crash "
          "behaviour itself is not decided - only the ordering discipline it relies on.", _NOTE, "DESIGN.md §4 C19"),
+ "C18": ("symbolic evaluation of seek/read position arithmetic (linear + min forms) with sibling comparison; CFG placement of cursor increments; opener/reset agreement; instance-state check",
+         "The per-operation invariants every cursor history relies on are decided for all seekable classes: the whence table of each seek(), "
+         "boundedness of the new position in array-backed readers, one increment per returned frame in sequential readers, reopen "
+         "consistency, per-instance cursor state, and restoration of the C file position by the offset scan. Arbitrary histories "
+         "(linearizability) are a run-time notion and are not decided.", _NOTE, "DESIGN.md §4 C18"),
 }
 _PENDING = "check not built yet in this round (design in DESIGN.md §4); will be claimed when its rules run clean"
-NA = {k: _PENDING for k in ["C01","C02","C05","C06","C07","C08","C09","C10","C11","C12","C13","C14","C15","C17","C18"]}
+NA = {k: _PENDING for k in ["C01","C02","C05","C06","C07","C08","C09","C10","C11","C12","C13","C14","C15","C17"]}
 NA["C16"] = ("every clause is numerical equality of computed arrays with closed-form expressions; no structural "
              "necessary condition covers more than one of the fifteen functions (DESIGN.md §5)")
